@@ -195,6 +195,34 @@ CHECKS["C20"] = dict(
     technique="TLC model checking of an exact-rational transcription + replay of its state space into the C code + TLC validation of integer projections",
 )
 
+_CRASH = ("Generated writer programs (1-3 signals of any type, 1-4 summary levels, omission, gaps, annotations/UTC/user data interleaved, late definitions) are "
+          "run once with the backend I/O interposed; before every backend write (thinned evenly beyond a per-program budget) and for byte prefixes of writes "
+          "(1, 8, 16, len/2, len-1; thorough: every byte of writes <= 40 bytes) the crash image is rebuilt from the write log and opened by the REAL reader in a "
+          "child process under a watchdog; termination kind, return code, every length, all samples (candidate runs), annotations, UTC entries and user data, and "
+          "two further opens are recorded as one CrashObs event per image. ")
+CHECKS["C03"] = dict(
+    category="model_checking",
+    text=_CRASH + "TLC judges each image with JlsCrash.tla against everything submitted up to the interrupted call: the open terminates; on success nothing "
+         "exceeds or differs from the submitted prefix; annotations/UTC/user data are in-order selections of unaltered submitted items; for a stop between "
+         "two complete writes with all definitions on disk the open succeeds, every call works and no more than the block in flight is lost (vs. the "
+         "samples in complete DATA chunks of the image). JlsLinks.tla model-checks, per backend write, that after ANY prefix of writes every pointer on disk "
+         "is 0 or leads to a complete chunk.",
+    design_ref="DESIGN.md section 6 C03, section 12",
+    note="Trusted: as C01 plus the crash model (file = byte prefix of the write stream). Known findings C03-K1 (repair skips blocks that exist only as "
+         "summaries) and C19-K1 (torn in-place header stays corrupt) are classified structurally and reported.",
+    technique="TLC trace validation of reader observations on every crash image against a TLA+ prefix contract + TLC model checking of the write ordering",
+)
+CHECKS["C19"] = dict(
+    category="model_checking",
+    text=_CRASH + "C19: (a) every properly closed file of the corpus is opened and read (definitions, windows, annotations, UTC, user data) and TLC requires it to be "
+         "byte-identical afterwards with no backend write at all; (b) every crash image that opens is opened a second and a third time: TLC requires no write, "
+         "no change, identical observations, and - when the first open repaired the image - a well-formed closed file (header length = size, forward walk to "
+         "END, all CRCs).",
+    design_ref="DESIGN.md section 6 C19, section 12",
+    note="Trusted: as C03. Known finding C19-K1: a stop inside an in-place 32-byte header rewrite leaves a corrupt header that repair does not mend.",
+    technique="TLC trace validation of repeated opens of closed files and crash images against a TLA+ convergence contract",
+)
+
 NOT_YET = {}
 
 
